@@ -210,6 +210,47 @@ pub fn apply_fault(ctx: &Ctx, img: &mut Vec<u8>, older: Option<&[u8]>, hot: &[(u
                 }
             }
         }
+        "number-copy" if ctx.chance(F, 1, 3, "number-extreme") => {
+            // a stored number replaced by one that is extreme *relative to this file*: its size, the
+            // distance from the number to the end of the file, an offset taken from elsewhere in the
+            // file (a digit run found at a random place), each also one off
+            let p = position(ctx, len, hot);
+            if let Some(q) = (p..len.min(p + 64)).find(|&i| img[i].is_ascii_digit()) {
+                let e = (q..len).find(|&i| !img[i].is_ascii_digit()).unwrap_or(len);
+                let base: u64 = match ctx.draw(F, 5, "extreme-base") {
+                    0 | 1 => len as u64,
+                    2 => (len - q) as u64,
+                    3 => q as u64,
+                    _ => {
+                        let r = ctx.draw(F, len as u64, "extreme-from") as usize;
+                        match (r..len).find(|&i| img[i].is_ascii_digit()) {
+                            Some(a) => {
+                                let b = (a..len.min(a + 18)).find(|&i| !img[i].is_ascii_digit()).unwrap_or(len.min(a + 18));
+                                std::str::from_utf8(&img[a..b]).ok().and_then(|t| t.parse().ok()).unwrap_or(0)
+                            }
+                            None => 0,
+                        }
+                    }
+                };
+                let v = match ctx.draw(F, 5, "extreme-delta") {
+                    0 => base,
+                    1 => base.saturating_sub(1),
+                    2 => base + 1,
+                    3 => base.saturating_sub(ctx.draw(F, 64, "extreme-minus")),
+                    _ => base / 2,
+                };
+                // same size when it fits (zero-padded): a corrupted value in a file of unchanged length
+                let digits = v.to_string().into_bytes();
+                if digits.len() <= e - q {
+                    let mut d = vec![b'0'; e - q - digits.len()];
+                    d.extend_from_slice(&digits);
+                    img[q..e].copy_from_slice(&d);
+                } else {
+                    img.splice(q..e, digits);
+                }
+            }
+            return "number-extreme";
+        }
         "number-copy" => {
             // a small misdirected write: one digit run lands on a neighbouring one (duplicate object
             // numbers or offsets in index blocks and cross-reference tables)
